@@ -211,6 +211,14 @@ class StmtMixin:
             env.locals[tgt.elts[1].id] = val.epochs
             return
         if isinstance(tgt, (ast.Tuple, ast.List)):
+            if isinstance(val.ty, TList) and not any(isinstance(t, ast.Starred) for t in tgt.elts):
+                # unpacking a LIST into n targets (added for C16, h0 `method, path = data.split(b" ", 1)`): Python raises
+                # ValueError ("not enough / too many values to unpack") unless the list has exactly n elements
+                n = len(tgt.elts)
+                self.fail(sym.list_len(val) == n, "ValueError", "unpack: the list does not have exactly %d elements" % n, tgt)
+                for i, t in enumerate(tgt.elts):
+                    self.assign(t, V(val.ty.elem, z3.Select(sym.list_arr(val), I(i))), env)
+                return
             if not isinstance(val.ty, TTuple):
                 raise Unsupported("unpacking %s" % val.ty)
             if len(val.ty.items) != len(tgt.elts):
@@ -374,6 +382,7 @@ class StmtMixin:
                 mode = "seq"
                 it_expr = it
             dict_view = None
+            set_iter = None
             if mode in ("enum", "seq"):
                 from .dictiter import DictView
 
@@ -392,6 +401,16 @@ class StmtMixin:
                     self.fail(z3.Not(sym.opt_is_none(seq0)), "TypeError", "'NoneType' object is not iterable", st)
                     seq0 = sym.opt_val(seq0)
                     opt_seq = True
+                set_iter = None
+                if isinstance(seq0.ty, TSet) and seq0.ty.k == TInt:
+                    # for-loop over a set[int] (added for C16): SNAPSHOT ENUMERATION in an arbitrary order, as for dict
+                    # views (dictiter.py E1/E2): a ghost list K of length n of pairwise distinct members covering exactly
+                    # the set; ghost names _seq<N>_keys / _seq<N>_pos.  The set must not change in the body (obligation
+                    # `set-unchanged` at the back edge; Python raises RuntimeError when its size changes).
+                    set_iter = (it_expr, seq0)
+                    seq0 = self.enum_set(seq0, env, "_seq%d" % ordn)
+                    env.locals["_seq%d" % ordn] = seq0
+                    it_expr = ast.Name(id="_seq%d" % ordn, ctx=ast.Load())
                 if (isinstance(it_expr, ast.Call) or (isinstance(it_expr, ast.Subscript) and isinstance(it_expr.slice, ast.Slice))) and isinstance(seq0.ty, TList):
                     # the iterable expression is evaluated ONCE (Python semantics); iterate the bound snapshot
                     # (a call result or a slice copy `xs[:]` is a fresh list that the body cannot change)
@@ -556,6 +575,9 @@ class StmtMixin:
                         continue  # Optional narrowing (`if x is not None:`) rebinds the name to the same value
                     if not v0.t.eq(v1.t):
                         raise Unsupported("loop %d of %s: the body changes local %s, which the loop head does not havoc (add it to the loop's modifies)" % (ordn, fname, n))
+                if kind == "for" and set_iter is not None:
+                    cur_set = self.evalv(set_iter[0], env)
+                    self.ctx.oblige("%s:loop%d.set-unchanged" % (fname, ordn), "assert", cur_set.t == set_iter[1].t, site=st.lineno, note="the set iterated by the for-loop is not modified by the loop body")
                 if head_dict is not None:
                     cur_dict = self.spec_val(ast.unparse(dict_view.node), env)
                     self.ctx.oblige("%s:loop%d.dict-unchanged" % (fname, ordn), "assert", cur_dict.t == head_dict.t, site=st.lineno, note="the dict iterated by a view is not modified by the loop body")
@@ -732,8 +754,10 @@ class StmtMixin:
             raise Unsupported("with statement (several items)")
         item = st.items[0]
         ce = item.context_expr
-        if not (isinstance(ce, ast.Call) and isinstance(ce.func, ast.Name)):
+        if not (isinstance(ce, ast.Call) and isinstance(ce.func, (ast.Name, ast.Attribute))):
             raise Unsupported("with statement")
+        if isinstance(ce, ast.Call) and isinstance(ce.func, ast.Attribute):
+            return self._with_method_cm(st, item, ce, env)
         callee = self.eval(ce.func, env)
         from .model import FuncRef
 
@@ -769,6 +793,59 @@ class StmtMixin:
                 self.exec_block(fn.body[yi + 1:], genv)
                 raise ctl
             self.exec_block(fn.body[yi + 1:], genv)
+        finally:
+            self.depth -= 1
+
+    def _with_method_cm(self, st, item, ce, env):
+        """`with obj.m(args) [as name]:` (added for C16, H3Connection._get_or_create_stream) where m is a repository METHOD
+        decorated with @contextmanager of the shape
+              <statements without yield>
+              try:
+                  yield <expr>
+              finally:
+                  <cleanup without yield>
+        contextlib semantics for that shape: run the leading statements; bind the yielded value; run the with-body.
+        However the body is left - normal completion, return, break, continue (generator resumed by __exit__(None..)) or an
+        exception (thrown into the generator at the yield) - the `finally` cleanup runs exactly once and then the exit
+        continues unchanged; an exception raised BY the cleanup replaces it.  The generator body is executed inline (no
+        contract), with the receiver bound to `self`."""
+        from .model import BoundMethod
+
+        callee = self.eval(ce.func, env)
+        if not isinstance(callee, BoundMethod) or callee.cls is None:
+            raise Unsupported("with statement")
+        info = self.index.cls(callee.cls)
+        owner, fn = self.index.find_method(info, callee.name)
+        if fn is None or not any(getattr(d, "id", getattr(d, "attr", None)) == "contextmanager" for d in fn.decorator_list):
+            raise Unsupported("with statement (not a @contextmanager method)")
+        ys = [n for n in ast.walk(fn) if isinstance(n, (ast.Yield, ast.YieldFrom))]
+        body = [b for b in fn.body if not (isinstance(b, ast.Expr) and isinstance(b.value, ast.Constant))]
+        last = body[-1] if body else None
+        ok = (
+            len(ys) == 1 and isinstance(last, ast.Try) and not last.handlers and not last.orelse and len(last.body) == 1
+            and isinstance(last.body[0], ast.Expr) and isinstance(last.body[0].value, ast.Yield)
+            and not any(isinstance(n, ast.Return) for n in ast.walk(fn))
+        )
+        if not ok:
+            raise Unsupported("with statement (generator shape)")
+        args, kwargs = self.eval_args(ce, env)
+        loc = self.bind_args(fn, callee.recv, args, kwargs, owner.module, None)
+        genv = Env(loc, owner.module, owner, fn)
+        genv.contract, genv.fname, genv.anchors, genv.local_types = None, fn.name, {}, {}
+        if self.depth > 12:
+            raise Unsupported("inline depth")
+        self.depth += 1
+        try:
+            self.exec_block(body[:-1], genv)
+            yv = last.body[0].value.value
+            if item.optional_vars is not None:
+                self.assign(item.optional_vars, self.eval(yv, genv) if yv is not None else NONE, env)
+            try:
+                self.exec_block(st.body, env)
+            except (PyRaise, PyReturn, PyBreak, PyContinue):
+                self.exec_block(last.finalbody, genv)  # an exception raised here replaces the pending exit
+                raise
+            self.exec_block(last.finalbody, genv)
         finally:
             self.depth -= 1
 
